@@ -2,6 +2,7 @@
 //! generated or replayed operation sequences and writes a transcript that the Lean driver
 //! (/verif/lean/Driver.lean) replays through the formal model.
 mod action;
+mod api;
 mod candle;
 mod flat;
 mod gen;
@@ -63,6 +64,7 @@ fn main() {
 			"action" => action::suite(&mut out, seed, thorough),
 			"candle" => candle::suite(&mut out, seed, thorough),
 			"renko" => renko::suite(&mut out, seed, thorough),
+			"api" => api::suite(&mut out, seed, thorough),
 			"methods" => {
 				let filter: Vec<String> = arg(&args, "--methods")
 					.map(|s| s.split(',').map(|x| x.to_string()).collect())
@@ -85,6 +87,7 @@ fn dispatch_replay(out: &mut Out, _suite: &str, id: u64, comp: &str, lines: &[St
 		"action" => action::replay_case(out, id, lines),
 		"candle" => candle::replay_case(out, id, lines),
 		"renko" => renko::replay_case(out, id, lines),
+		"flags" => eprintln!("replay: case {id} holds harness-internal comparisons; re-run its suite (see the '# suite' line)"),
 		other => panic!("replay: unknown component {other}"),
 	}
 }
